@@ -84,6 +84,11 @@ def check(ctx):
     o = ctx.ob('forward_first_day_and_today', 'R8',
                "forward: the fill starts at max(task.start, now()); its first day is midnight of that date", floor=2)
     ctx.guarded(o, lambda o: c02.fill_start(ctx, o, psf))
+    o = ctx.ob('forward_fill_starts_at_task_start', 'R8',
+               "forward: on every path the date handed to the fill loop is bounded below by task.start (the user's start when it is "
+               "fixed, the start just computed otherwise)", floor=1)
+    ctx.guarded(o, lambda o: fill_from_task_start(ctx, o, psf))
+
     psb = PassShape(ctx, BWD)
     o = ctx.ob('backward_first_day', 'R8',
                "backward: the fill starts at min(task.end, bound); its first booked day is the day before midnight of that date", floor=2)
@@ -249,6 +254,56 @@ def default_estimate_stored(ctx, o, S):
                                    f"another amount of work reserved than default_estimate - spent")
         else:
             o.undecided(init, st, st, f"default_estimate is stored as `{src(v)[:60]}`, a form the rule does not follow")
+
+
+def fill_from_task_start(ctx, o, ps: PassShape):
+    """every case of the (expanded) start argument of the fill call is `max(.., task.start, ..)`, task.start itself, or the very
+    value that was stored to task.start on that path; a fully resolved case without task.start ignores a user-fixed start"""
+    fill = ctx.prog.func(ps.S['fill'])
+    stop = {f"{ps.task}.start"}
+    stored = []
+    for st, tgt, val, reg in ps.stores('start'):
+        if reg['milestone'] is not True:
+            stored.append(ps.ex.expand(val, ps.cfg.node_of(st), stop=stop))
+    for c in facts.calls_named(ps.f, fill.name):
+        if len(c.args) < 5:
+            continue
+        v = ps.ex.expand(c.args[2], ps.cfg.node_containing(c), stop=stop)
+        for conds, case in sched.expr_cases(v):
+            args = facts.flatten_lattice(case, 'max') or [case]
+            if any(match(f"{ps.task}.start", a) for a in args) or any(same(a, sv) for a in args for sv in stored):
+                o.site(ps.f, c, f"fill starts at {src(case)[:60]}")
+            elif isinstance(case, ast.Name) and len(ps.fl.reaching(case.id, ps.cfg.node_containing(c))) > 1:
+                # a local with several definitions reaching the call: judge each of them
+                bad = unk = None
+                for d_ in ps.fl.reaching(case.id, ps.cfg.node_containing(c)):
+                    if d_.kind != 'assign' or d_.value is None or d_.node is None:
+                        unk = d_
+                        continue
+                    tg_ = d_.stmt.targets if isinstance(d_.stmt, ast.Assign) else []
+                    if any(match(f"{ps.task}.start", t_) for t_ in tg_):
+                        continue            # `task.start = local = <value>`: the local IS the start just stored
+                    dv = ps.ex.expand(d_.value, d_.node, stop=stop)
+                    da = facts.flatten_lattice(dv, 'max') or [dv]
+                    if any(match(f"{ps.task}.start", a) for a in da) or any(same(a, sv) for a in da for sv in stored):
+                        continue
+                    if sched_fill._unresolved(ps.f, d_.value):
+                        unk = d_
+                    else:
+                        bad = (d_, dv)
+                if bad is not None:
+                    o.refute(ps.f, c, bad[0].stmt, f"work is booked from `{case.id}`, which on some path is `{src(bad[1])[:70]}`: task.start is not part of it, so "
+                                                   f"for a task whose start the user fixed the reservations do not begin at that start")
+                elif unk is not None:
+                    o.undecided(ps.f, c, c.args[2], f"work is booked from `{case.id}`, one definition of which the rule cannot resolve")
+                else:
+                    o.site(ps.f, c, f"fill starts at {case.id} (every definition is bounded by task.start)")
+            elif sched_fill._unresolved(ps.f, case):
+                o.undecided(ps.f, c, c.args[2], f"work is booked from `{src(case)[:70]}`, which contains a term the rule cannot resolve")
+            else:
+                where = (" when " + ", ".join(facts.cond_texts(conds))[:80]) if conds else ""
+                o.refute(ps.f, c, c.args[2], f"work is booked from `{src(case)[:80]}`{where}: task.start is not part of it, so for a task whose start "
+                                             f"the user fixed the reservations do not begin at that start")
 
 
 def only_leaves(ctx, o, ps: PassShape):
